@@ -459,7 +459,8 @@ struct LinOp {
     /// 0 create, 1 delete, 2 use
     kind: u8,
     /// Some(true) = requires/establishes "present" on success, etc.
-    /// code class: 0 OK, 1 says-absent (NOT_FOUND), 2 says-present (ALREADY_EXISTS), 3 unconstrained, 4 optional effect
+    /// code class: 0 OK, 1 says-absent (NOT_FOUND), 2 says-present (ALREADY_EXISTS), 3 unconstrained, 4 optional effect,
+    /// 5 answered with another error status (no effect)
     class: u8,
     desc: String,
 }
@@ -558,7 +559,8 @@ fn check_linearizability(tr: &Trace, rep: &mut Report) {
             per_topic.entry(name.to_string()).or_default().push(LinOp { inv: c.invoke_idx, ret, kind, class, desc });
         };
         match &c.req {
-            Req::CreateTopic { name } => push_t(name, 0, cls(0), format!("CreateTopic->{}", code)),
+            // a create that was answered with an error has created nothing, whatever the status
+            Req::CreateTopic { name } => push_t(name, 0, if !aborted && optional { 5 } else { cls(0) }, format!("CreateTopic->{}", code)),
             Req::DeleteTopic { name } => push_t(name, 1, cls(1), format!("DeleteTopic->{}", code)),
             Req::GetTopic { name } => {
                 if !optional && code != 3 {
@@ -589,7 +591,8 @@ fn check_linearizability(tr: &Trace, rep: &mut Report) {
         match &c.req {
             Req::CreateSub { name, .. } => {
                 // 5 (topic missing) and 3 (other project / bad endpoint) say nothing about the subscription name
-                let class = if optional { 4 } else if code == 0 { 0 } else if code == 6 { 2 } else { 3 };
+                // any other error status: answered, so nothing was created ("with nothing created")
+                let class = if aborted { 4 } else if optional { 5 } else if code == 0 { 0 } else if code == 6 { 2 } else { 3 };
                 push_s(name, 0, class, format!("CreateSubscription->{}", code));
             }
             Req::DeleteSub { name } => push_s(name, 1, cls(1), format!("DeleteSubscription->{}", code)),
@@ -811,6 +814,7 @@ pub fn analyze(tr: &Trace) -> Report {
         now: 0,
         idx: 0,
         drain_started: false,
+        stuck_reported: false,
         token_format_ok: true,
     };
     // ids are known post-hoc: map them up front so that deliveries racing a publish resolve
@@ -860,6 +864,23 @@ pub fn analyze(tr: &Trace) -> Report {
             }
             EvKind::Qp { stats, stalled } => {
                 m.stalled_now = *stalled;
+                // nothing is runnable at a quiescent point and the harness holds no task at a
+                // stall point: a unary call other than a blocking Pull that has not returned by
+                // now is waiting for something that will not happen by itself
+                if *stalled == 0 && !m.drain_started {
+                    let stuck: Vec<String> = tr
+                        .calls
+                        .iter()
+                        .filter(|c| c.invoke_idx < i && c.done.as_ref().map(|d| d.0 > i).unwrap_or(true) && c.aborted.map(|a| a.0 > i).unwrap_or(true))
+                        .filter(|c| !matches!(c.req, Req::Pull { ri: false, .. } | Req::StreamOpen { .. }))
+                        .take(6)
+                        .map(|c| format!("{}#{}", req_kind(&c.req), c.id))
+                        .collect();
+                    if !stuck.is_empty() && !m.stuck_reported {
+                        m.stuck_reported = true;
+                        m.v("call_stuck_at_quiescence", &["C07"], format!("with nothing runnable and no task held by the harness, these calls have not returned: {:?}", stuck));
+                    }
+                }
                 m.on_qp(stats);
                 m.check_invalid_ctrl_at_qp();
             }
